@@ -24,6 +24,9 @@ def H2(x):
     return 0.0 if x <= 0 or x >= 1 else -x * math.log2(x) - (1 - x) * math.log2(1 - x)
 
 
+IB_GAP_TOL = 5e-4
+
+
 class C13(object):
     id = 'C13'
     rule = ("channel_capacity / channel_capacity_joint on row-stochastic matrices 1-4 x 1-4 with zeros, duplicate rows, "
@@ -41,9 +44,9 @@ class C13(object):
                 "certificate is within the gap of every competitor")
 
     def gen(self, rng, tier):
-        n_cases = 70 if tier == 'quick' else 1200
+        n_cases = 100 if tier == 'quick' else 1200
         for _ in range(n_cases):
-            kind = rng.choice(['capacity', 'capacity', 'closed', 'rd', 'rd', 'rd-mono', 'ib', 'capacity-joint'])
+            kind = rng.choice(['capacity', 'capacity', 'closed', 'rd', 'rd', 'rd-mono', 'ib', 'ib', 'capacity-joint', 'capacity-joint'])
             if kind in ('capacity', 'capacity-joint'):
                 n, m = rng.randint(1, 4), rng.randint(1, 4)
                 rows = []
@@ -52,6 +55,15 @@ class C13(object):
                     rows.append([str(p) for p in pv])
                 if n >= 2 and rng.random() < 0.3:
                     rows[-1] = rows[0]
+                if m >= 2 and rng.random() < 0.5:
+                    # structural zeros: supports of equal size at different places (erasure-like channels)
+                    rows = []
+                    for i in range(n):
+                        pv, _ = gen.rand_prob_vector(rng, m - 1, rng.choice(['dyadic', 'uneven']))
+                        while any(p == 0 for p in pv):
+                            pv, _ = gen.rand_prob_vector(rng, m - 1, 'uneven')
+                        z = (i + rng.randint(0, 1)) % m
+                        rows.append([str(p) for p in pv[:z]] + ['0'] + [str(p) for p in pv[z:]])
                 yield {'kind': kind, 'P': rows}
             elif kind == 'closed':
                 yield {'kind': 'closed', 'family': rng.choice(['bsc', 'bec', 'noiseless', 'useless']),
@@ -64,13 +76,15 @@ class C13(object):
                     pv, _ = gen.rand_prob_vector(rng, n, 'uneven')
                 betas = sorted(rng.sample([0.0, 0.5, 1.0, 2.0, 3.0, 4.0, 6.0, 8.0], rng.randint(3, 5)))
                 yield {'kind': kind, 'p': [str(p) for p in pv], 'beta': rng.choice([0.0, 0.5, 1.0, 2.0, 3.5, 5.0, 8.0]),
-                       'betas': betas, 'dist': rng.choice(['hamming', 'hamming', 'residual'])}
+                       'betas': betas, 'dist': rng.choice(['hamming', 'hamming', 'residual']),
+                       'max_iters': rng.choice([100, 100, 2, 3, 6]) if kind == 'rd' else 100}
             else:
                 shape = rng.choice([(2, 2), (2, 3), (3, 2)])
                 pv, _ = gen.rand_prob_vector(rng, shape[0] * shape[1], 'small')
                 while any(p == 0 for p in pv):
                     pv, _ = gen.rand_prob_vector(rng, shape[0] * shape[1], 'uneven')
-                yield {'kind': 'ib', 'shape': list(shape), 'pxy': [str(p) for p in pv], 'beta': rng.choice([0.5, 2.0, 5.0])}
+                yield {'kind': 'ib', 'shape': list(shape), 'pxy': [str(p) for p in pv], 'beta': rng.choice([0.5, 2.0, 5.0, 8.0, 12.0, 20.0]),
+                       'max_iters': rng.choice([100, 100, 100, 2, 3, 6])}
 
     def shrink(self, case):
         return []
@@ -159,16 +173,16 @@ class C13(object):
         self.certify_capacity(drv, P, float(cc), pmf, r)
 
     # ------------------------------------------------------------------ rate distortion
-    def ba(self, p, beta, dist):
+    def ba(self, p, beta, dist, max_iters=100):
         from dit.rate_distortion.blahut_arimoto import blahut_arimoto
         from dit.rate_distortion.distortions import hamming_distortion, residual_entropy_distortion
         f = hamming_distortion if dist == 'hamming' else residual_entropy_distortion
         np.random.seed(12345)
         import dit.math
         dit.math.prng.seed(12345)
-        return blahut_arimoto(np.array(p, dtype=float), beta, distortion=f, restarts=12)
+        return blahut_arimoto(np.array(p, dtype=float), beta, distortion=f, restarts=12, max_iters=max_iters)
 
-    def certify_rd(self, drv, p, beta, dist, res, q, r):
+    def certify_rd(self, drv, p, beta, dist, res, q, r, converged=True):
         from dit.rate_distortion.distortions import residual_entropy_distortion
         q = np.array(q, dtype=float)
         n = len(p)
@@ -191,7 +205,7 @@ class C13(object):
         if abs(dval - ed) > 1e-7:
             r.oracle_fail = 'reported distortion %r but the returned joint has E[d] = %r' % (dval, ed)
             return None
-        if dist == 'hamming':
+        if dist == 'hamming' and converged:
             lb = bits2f(drv.call('chanf', ['rdbound', fv([beta]), fm(q), fm(d)]))
             gap = rate + beta * dval - lb
             r.detail['lower_bound'] = lb
@@ -222,9 +236,12 @@ class C13(object):
         beta, dist = case['beta'], case['dist']
         r.features += ['dist=%s' % dist, 'beta=%s' % beta]
         r.nontrivial = beta > 0
-        res, q = self.ba(p, beta, dist)
-        out = self.certify_rd(drv, p, beta, dist, res, q, r)
-        if out and dist == 'hamming' and len(p) == 2 and not r.bad():
+        mi_ = case.get('max_iters', 100)
+        r.features.append('max_iters=%s' % mi_)
+        # a run cut short by max_iters still has to report the rate and distortion OF THE JOINT IT RETURNS
+        res, q = self.ba(p, beta, dist, mi_)
+        out = self.certify_rd(drv, p, beta, dist, res, q, r, converged=mi_ >= 100)
+        if out and dist == 'hamming' and len(p) == 2 and not r.bad() and mi_ >= 100:
             rate, D = out
             pm = min(p)
             if 1e-6 < D < pm - 1e-6:
@@ -249,14 +266,24 @@ class C13(object):
             prev = out
 
     def run_ib(self, case, drv, r):
+        r.features.append('max_iters=%s' % case.get('max_iters', 100))
+        r.nontrivial = True
+        # the restarts draw from NumPy's global generator: three different sets of restarts per problem, few and many
+        for sd, restarts in ((4321, 12), (7, 3), (99, 6)):
+            self.run_ib_once(case, drv, r, sd, restarts)
+            if r.bad():
+                r.detail = dict(r.detail or {}, numpy_seed=sd, restarts=restarts)
+                return
+
+    def run_ib_once(self, case, drv, r, sd, restarts):
         from dit.rate_distortion.blahut_arimoto import blahut_arimoto_ib
         nx, ny = case['shape']
         pxy = np.array([float(Fraction(v)) for v in case['pxy']]).reshape(nx, ny)
         beta = case['beta']
-        r.nontrivial = True
         import dit.math
-        dit.math.prng.seed(4321)
-        res, q = blahut_arimoto_ib(pxy, beta, restarts=12)
+        dit.math.prng.seed(sd)
+        np.random.seed(sd)
+        res, q = blahut_arimoto_ib(pxy, beta, restarts=restarts, max_iters=case.get('max_iters', 100))
         q = np.array(q)
         if np.abs(q.sum(axis=2) - pxy).max() > 1e-9 or (q < -1e-12).any():
             r.oracle_fail = 'the (x, y) marginal of the returned joint is not the input'
@@ -277,6 +304,41 @@ class C13(object):
         ity = bits2f(drv.call('chanf', ['jointmi', [], fm(q.sum(axis=0).T), []]))
         if abs(float(res.distortion) - (ixy - ity)) > 1e-6:
             r.oracle_fail = 'reported distortion %r, E[KL(p(y|x)||q(y|t))] = I(X;Y) - I(T;Y) = %r' % (float(res.distortion), ixy - ity)
+            return
+        if case.get('max_iters', 100) >= 100:
+            # optimality for the distortion matrix of the returned joint, held fixed: d(x,t) = KL(p(y|x) || q(y|t))
+            qty = q.sum(axis=0).T
+            used = [t for t in range(qty.shape[0]) if qty[t].sum() > 1e-12]
+            pyx = pxy / px[:, None]
+            with np.errstate(all='ignore'):
+                dm = np.array([[float(np.sum(np.where(pyx[x] > 0, pyx[x] * np.log2(pyx[x] / (qty[t] / qty[t].sum())), 0.0)))
+                                for t in used] for x in range(nx)])
+            if np.isfinite(dm).all():
+                qx = qxt[:, used]
+                lb = bits2f(drv.call('chanf', ['rdbound', fv([beta]), fm(qx), fm(dm)]))
+                ach = mi + beta * bits2f(drv.call('chanf', ['expdist', [], fm(qx), fm(dm)]))
+                if ach - lb > IB_GAP_TOL:
+                    # the bound is tight only at the optimum: evaluate it also at a long-run iterate for this matrix
+                    qt = np.ones(len(used)) / len(used)
+                    for _ in range(3000):
+                        A = qt * np.exp2(-beta * (dm - dm.min(axis=1, keepdims=True)))
+                        A /= A.sum(axis=1, keepdims=True)
+                        qt = np.maximum(px @ A, 1e-300)
+                    lb = max(lb, bits2f(drv.call('chanf', ['rdbound', fv([beta]), fm(px[:, None] * A), fm(dm)])))
+                # stationarity (first-order condition of R + beta D for this matrix): q(t|x) is proportional to q(t) 2^(-beta d(x,t))
+                cond = qx / px[:, None]
+                Afp = qx.sum(axis=0) * np.exp2(-beta * (dm - dm.min(axis=1, keepdims=True)))
+                Afp /= Afp.sum(axis=1, keepdims=True)
+                resid = float(np.abs(Afp - cond).max())
+                r.detail = dict(r.detail or {}, ib_stationarity_residual=resid)
+                if resid > 1.5e-3:   # the unchanged code stays below 5.1e-4 on 700 sampled problems (stopping rule on successive distortions)
+                    r.oracle_fail = ('IB: the returned test channel is not a stationary point of R + beta D for its own distortion '
+                                     'matrix: max |q(t|x) - q(t) 2^(-beta d)/Z| = %r' % resid)
+                    return
+                r.detail = dict(r.detail or {}, ib_gap=ach - lb)
+                if ach - lb > IB_GAP_TOL:
+                    r.oracle_fail = ('IB: R + beta D = %r for the distortion matrix of the returned joint, but some test channel '
+                                     'achieves at most %r + tolerance (gap %r)' % (ach, lb, ach - lb))
 
 
 PROP = C13()
